@@ -357,6 +357,10 @@ func (key *Key) Thumbprint(h hash.Hash) ([]byte, error) {
 		kty: key.kty,
 		pub: key.pub,
 	}
+	if priv, ok := key.priv.([]byte); ok {
+		// RFC 7638 Section 3.2: the required members for a symmetric key are "k" and "kty".
+		thumbKey.priv = priv
+	}
 	data, err := thumbKey.MarshalJSON()
 	if err != nil {
 		return nil, err
@@ -500,7 +504,7 @@ func newUnknownKeyTypeError(key *Key) *unknownKeyTypeError {
 }
 
 func (err *unknownKeyTypeError) Error() string {
-	return "jwk: unknown private and public key type: " + err.priv.String() + ", " + err.pub.String()
+	return fmt.Sprintf("jwk: unknown private and public key type: %v, %v", err.priv, err.pub)
 }
 
 type ecdhPrivateKey = ecdh.PrivateKey
